@@ -275,6 +275,18 @@ class Program:
                             views[b.name] = a_ if views.get(b.name, a_) == a_ else None
                         else:
                             other_defs.add(b.name)
+        # every name defined as a property / cached_property anywhere (an attribute access that computes)
+        self.property_names = {b.name for raw in raw_trees.values() for x in ast.walk(raw) if isinstance(x, ast.ClassDef) for b in x.body if isinstance(b, ast.FunctionDef) and any("property" in norm(d) for d in b.decorator_list)}
+        # attribute names that some function other than a constructor stores to (counters, flags, caches): a local copy of
+        # such a field taken earlier is NOT interchangeable with a later read of the field
+        unstable = set()
+        for raw in raw_trees.values():
+            for fn_ in ast.walk(raw):
+                if isinstance(fn_, (ast.FunctionDef, ast.AsyncFunctionDef)) and fn_.name != "__init__":
+                    for x in ast.walk(fn_):
+                        if isinstance(x, ast.Attribute) and isinstance(x.ctx, (ast.Store, ast.Del)):
+                            unstable.add(x.attr)
+        self.property_names = self.property_names | unstable
         self.field_views = {k: v for k, v in views.items() if v is not None and k not in other_defs and k not in stored_names and v in foreign_private and k not in _rule_anchor_names()}
         for p in files:
             rel = p.relative_to(self.repo_root)
@@ -296,7 +308,7 @@ class Program:
                             x.attr = self.field_views[x.attr]
 
                 try:
-                    tree = normalize_module(tree, inherited=self._inherited_helpers(p, tree), returns_arg=self.returns_arg, foreign_refs=set().union(*[v for k, v in refs_by_file.items() if k != str(p)]) if refs_by_file else set(), foreign_defs=_foreign_overrides(str(p), class_bases, class_methods))
+                    tree = normalize_module(tree, property_names=self.property_names, inherited=self._inherited_helpers(p, tree), returns_arg=self.returns_arg, foreign_refs=set().union(*[v for k, v in refs_by_file.items() if k != str(p)]) if refs_by_file else set(), foreign_defs=_foreign_overrides(str(p), class_bases, class_methods))
                 except RecursionError as e:  # pragma: no cover
                     raise AnalysisError(f"normalisation of {rel} failed: {e}") from e
             _number_nodes(tree)
